@@ -11,6 +11,7 @@ import Dtaiverif.Model.Dba
 import Dtaiverif.Model.SubseqIter
 import Dtaiverif.Model.SubseqSearch
 import Dtaiverif.Model.Hier
+import Dtaiverif.Model.KMeans
 
 open Lean
 
@@ -273,12 +274,26 @@ def opHier (j : Json) : Except String Json := do
     ("linkage", cellsJ t.linkage.reverse),
     ("condensed", Json.arr ((condensedOf n d0).map costJ).toArray)]
 
+/-- op "nearest": final assignment of `KMeans.fit` on an explicit table of distances to the means -/
+def opNearest (j : Json) : Except String Json := do
+  let k ← getNat j "k"
+  let rows ← (j.getObjVal? "table") >>= (·.getArr?)
+  let table : List (List Cost) := rows.toList.map fun r =>
+    match r.getArr? with
+    | .ok a => a.toList.map costOfJ
+    | .error _ => []
+  let a := assignAll table
+  return Json.mkObj [
+    ("assign", Json.arr (a.map fun x => match x with | some i => Json.num (i : Nat) | none => Json.num (-1 : Int)).toArray),
+    ("clusters", Json.arr ((clustersOf k a).map fun c => Json.arr (c.map fun (i : Nat) => Json.num (i : Nat)).toArray).toArray)]
+
 def dispatch (j : Json) : Except String Json := do
   let op ← (j.getObjVal? "op") >>= (·.getStr?)
   let res ← match op with
     | "dtw" => opDtw j
     | "knn" => opKnn j
     | "hier" => opHier j
+    | "nearest" => opNearest j
     | "subseq" => opSubseq j
     | "dba" => opDba j
     | "bounds" => opBounds j
